@@ -184,7 +184,7 @@ class C14:
     def units(self, tier: str, seed: int) -> list:
         cs = configs(tier)
         step = max(1, len(cs) // 48)
-        return [{"lo": i, "hi": min(len(cs), i + step)} for i in range(0, len(cs), step)] + [{"rebind": how} for how in ("root", "child", "config")]
+        return [{"lo": i, "hi": min(len(cs), i + step)} for i in range(0, len(cs), step)] + [{"rebind": how} for how in ("root", "child", "config", "alias-ref", "alias-ref-config", "mapping-wrapper", "mapping-chain")]
 
     def rebind_unit(self, unit: dict) -> dict:
         """A `module:attr` reference names what the module attribute IS when the tree is started: after the attribute has been bound
@@ -193,7 +193,66 @@ class C14:
 
         fails: list = []
 
+        async def alias_ref() -> None:
+            """a child whose alias is `<module:attr reference>/<name>` and whose type defaults to the alias: type = the reference, and
+            default-named resources added in start() appear under <name>"""
+            from asphalt.core import Component, Context, start_component
+
+            from vkplugins import comps
+
+            class P(Component):
+                def __init__(self) -> None:
+                    if unit["rebind"] == "alias-ref":
+                        self.add_component("vkplugins.comps:C/nm", tag="t")
+
+            cfg = {"components": {"vkplugins.comps:C/nm": {"tag": "t"}}} if unit["rebind"] == "alias-ref-config" else {}
+            comps.REC.clear()
+            async with Context() as ctx:
+                await start_component(P, cfg, timeout=None)
+                ctors = [r for r in comps.REC if r[0] == "ctor"]
+                if ctors != [("ctor", "C", {"tag": "t"})]:
+                    fails.append(("component-type", f"alias 'vkplugins.comps:C/nm' without an explicit type: constructed {ctors}, expected class C once"))
+                names = sorted(n for n in ctx.get_resources(comps.rtype("C", "s")))
+                if "nm" not in names:
+                    fails.append(("resource-names", f"default-named resource added in start() of 'vkplugins.comps:C/nm' is registered under {names}"))
+
+        async def mapping_cfg() -> None:
+            """the root configuration may be any mutable mapping: it is honoured like a dict and left unmodified (reusable)"""
+            import collections
+
+            from asphalt.core import Context, start_component
+
+            from vkplugins import comps
+
+            def make() -> Any:
+                inner = {"components": {"a": {"x": 5}, "extra": {"type": "vkplugins.comps:C", "tag": "e"}}}
+                if unit["rebind"] == "mapping-chain":
+                    return collections.ChainMap({}, inner)
+                return collections.UserDict(inner)
+
+            cfg = make()
+            runs = []
+            for _ in range(2):
+                comps.REC.clear()
+                async with Context():
+                    await start_component(comps.Root, cfg, timeout=None)
+                runs.append([r for r in comps.REC if r[0] == "ctor"])
+            comps.REC.clear()
+            async with Context():
+                await start_component(comps.Root, make().data if unit["rebind"] == "mapping-wrapper" else dict(make()), timeout=None)
+            ref = [r for r in comps.REC if r[0] == "ctor"]
+            if runs[0] != ref:
+                fails.append(("ctor-kwargs", f"root configuration given as a {type(cfg).__name__}: constructed {runs[0]}, the same configuration as a dict gives {ref}"))
+            if runs[1] != runs[0]:
+                fails.append(("reuse", f"second start from the same {type(cfg).__name__} object constructed {runs[1]}, the first start {runs[0]}"))
+            if dict(cfg) != dict(make()):
+                fails.append(("config-modified", f"the {type(cfg).__name__} passed to start_component changed to {dict(cfg)!r}"))
+
         async def main() -> None:
+            if unit["rebind"].startswith("alias-ref"):
+                return await alias_ref()
+            if unit["rebind"].startswith("mapping"):
+                return await mapping_cfg()
             import vkplugins.comps as mod
             from asphalt.core import Component, Context, start_component
 
@@ -232,9 +291,9 @@ class C14:
         s["evaluations"] = s["transitions"] = s["states"] = s["distinct"] = s["nontrivial"] = 1
         s["outcomes"] = {"done": 1}
         if fails:
-            s["violations"].append({"keys": ["component-type"], "fails": [list(f) for f in fails], "program": dict(unit), "choices": [], "trace": [],
+            s["violations"].append({"keys": sorted({f[0] for f in fails}), "fails": [list(f) for f in fails], "program": dict(unit), "choices": [], "trace": [],
                                     "outcome": "done"})
-            s["keyhist"] = {"component-type": 1}
+            s["keyhist"] = {fails[0][0]: 1}
         return s
 
     def run(self, env: Any, program: Any) -> None:
